@@ -547,6 +547,8 @@ let predict (c : string) (obs : string) : string * string * bool =
                        | None -> ("ok", false))
                   | None -> ("BAD:bad-path", false))
              | _ -> ("BAD:bad-path", false))
+        | "pht" -> if obs = "err" then ("ok", true) else ("BAD:placeholder-at-non-scalar-position-accepted", true)
+        | "ptype" -> if obs = "err" then ("ok", true) else ("BAD:malformed-component-type-accepted", true)
         | "phe" -> if obs = "err" then ("ok", true) else ("BAD:unresolved-placeholder-accepted", true)
         | "case" | "free" -> ("ok", false)
         | _ -> ("BAD:unknown-mutation", false)
